@@ -124,6 +124,13 @@ def c03(t: tr.Trace, d: dict, h=None, argsh=()):
     x = np.asarray(r.x, dtype=float)
     xc = recs[0]["x"]
     tol = 1e-9 * (1.0 + np.abs(xc)) + 1e-12
+    if x.shape == xc.shape and d.get("proj") and np.any(np.abs(x - xc) > tol) and np.all(np.abs(x - xc) <= 1e-4 * (1.0 + np.abs(xc))):
+        # with projections the model reports a stored point as dykstra(xbase + s); for the starting point of a run
+        # (s = 0, evaluated as it is) this re-projection moves the point by up to ~sqrt(tol): not rounding
+        out.append(("C03:reprojection-drift-of-run-start-point|proj",
+                    "soln.x=%s is the Dykstra re-projection of evaluation point %d = %s (max rel. diff %.2e)"
+                    % (x, lab, xc, float(np.max(np.abs(x - xc) / (1 + np.abs(xc)))))))
+        return out
     if x.shape != xc.shape or np.any(np.abs(x - xc) > tol):
         # is it some other evaluated point?
         other = [p for p, rs in pts.items() if rs[0]["x"].shape == x.shape and np.all(np.abs(x - rs[0]["x"]) <= tol)]
